@@ -321,6 +321,14 @@ pub fn grow_key(page: u16, id: u16) -> [u8; 32] {
 	k[8..].copy_from_slice(&tail);
 	k[8] = id as u8;
 	k[9] = (id >> 8) as u8;
+	if (30000..40000).contains(&id) {
+		// dense background: 60 keys on each of the pages 0x8000, 0x8001, ... (full enough that a
+		// reindex batch boundary of 8192 entries falls inside a page, never overflowing one)
+		let pg = 0x8000u64 + ((id - 30000) / 60) as u64;
+		let prefix = (pg << 48) | (splitmix(0xdddd + id as u64) & ((1u64 << 48) - 1)) | 1;
+		k[0..8].copy_from_slice(&prefix.to_be_bytes());
+		return k
+	}
 	if id >= 20000 {
 		let prefix = splitmix(0xbbbb + id as u64) | 1 << 63;
 		let prefix = if (prefix >> 48) as u16 == page { prefix ^ (1 << 62) } else { prefix };
